@@ -94,9 +94,9 @@ func (fr *frame) mapUpdate(x *ssa.MapUpdate) {
 	fr.safetyCheck("nil", "assignment to entry in nil map", x.Pos(), "(not (= "+m+" 0))")
 	kd, kv, kl := u.keyMapDom(mt), u.keyMapVal(mt), u.keyMapLen()
 	d, vv, l := fr.st.get(u, kd), fr.st.get(u, kv), fr.st.get(u, kl)
-	fr.st.set(kl, fmt.Sprintf("(store %s %s (ite (select (select %s %s) %s) (select %s %s) (+ (select %s %s) 1)))", l, m, d, m, k, l, m, l, m))
-	fr.st.set(kd, fmt.Sprintf("(store %s %s (store (select %s %s) %s true))", d, m, d, m, k))
-	fr.st.set(kv, fmt.Sprintf("(store %s %s (store (select %s %s) %s %s))", vv, m, vv, m, k, v))
+	fr.st.setAt(kl, fmt.Sprintf("(store %s %s (ite (select (select %s %s) %s) (select %s %s) (+ (select %s %s) 1)))", l, m, d, m, k, l, m, l, m), m)
+	fr.st.setAt(kd, fmt.Sprintf("(store %s %s (store (select %s %s) %s true))", d, m, d, m, k), m)
+	fr.st.setAt(kv, fmt.Sprintf("(store %s %s (store (select %s %s) %s %s))", vv, m, vv, m, k, v), m)
 }
 
 func (fr *frame) makeSlice(x *ssa.MakeSlice) Val {
@@ -108,7 +108,7 @@ func (fr *frame) makeSlice(x *ssa.MakeSlice) Val {
 	fr.safetyCheck("makelen", "make: 0 <= len <= cap", x.Pos(), "(and "+m.cmp("<=", m.idxLit(0), n, true)+" "+m.cmp("<=", n, c, true)+")")
 	r := fr.freshRef()
 	k := u.keyM(st.Elem())
-	fr.st.set(k, fmt.Sprintf("(store %s %s %s)", fr.st.get(u, k), r, u.zero(types.NewArray(st.Elem(), 0))))
+	fr.st.setAt(k, fmt.Sprintf("(store %s %s %s)", fr.st.get(u, k), r, u.zero(types.NewArray(st.Elem(), 0))), r)
 	return Val{t: u.define(fr.tag(x.Name()), "Slc", fmt.Sprintf("(mk-slc %s %s %s %s)", r, m.idxLit(0), n, c)), typ: x.Type()}
 }
 
@@ -184,7 +184,7 @@ func (fr *frame) appendOp(c *ssa.CallCommon, pos ssa.Instruction) Val {
 	inPlace := u.blitOf(es, srcArr, u.idxAdd("(s_off "+s+")", "(s_len "+s+")"), tArr, "(s_off "+t+")", n)
 	copied := u.blitOf(es, u.shiftOf(es, srcArr, "(s_off "+s+")"), "(s_len "+s+")", tArr, "(s_off "+t+")", n)
 	resRef := u.define(fr.tag("appref"), "Int", fmt.Sprintf("(ite %s (s_ref %s) %s)", fits, s, r))
-	fr.st.set(k, fmt.Sprintf("(store %s %s (ite %s %s %s))", M, resRef, fits, inPlace, copied))
+	fr.st.setAt(k, fmt.Sprintf("(store %s %s (ite %s %s %s))", M, resRef, fits, inPlace, copied), "(s_ref "+s+")", r)
 	res := fmt.Sprintf("(mk-slc %s (ite %s (s_off %s) %s) %s (ite %s (s_cap %s) %s))", resRef, fits, s, m.idxLit(0), newLen, fits, s, newCap)
 	_ = pos
 	return Val{t: u.define(fr.tag("append"), "Slc", res), typ: c.Args[0].Type()}
@@ -209,6 +209,6 @@ func (fr *frame) copyOp(c *ssa.CallCommon) Val {
 	}
 	n := u.define(fr.tag("copyn"), I, fmt.Sprintf("(ite %s (s_len %s) %s)", m.cmp("<=", "(s_len "+d+")", srcLen, true), d, srcLen))
 	old := fmt.Sprintf("(select %s (s_ref %s))", M, d)
-	fr.st.set(k, fmt.Sprintf("(store %s (s_ref %s) %s)", M, d, u.blitOf(es, old, "(s_off "+d+")", srcArr, srcOff, n)))
+	fr.st.setAt(k, fmt.Sprintf("(store %s (s_ref %s) %s)", M, d, u.blitOf(es, old, "(s_off "+d+")", srcArr, srcOff, n)), "(s_ref "+d+")")
 	return Val{t: n, typ: types.Typ[types.Int]}
 }
